@@ -56,7 +56,7 @@ fn limit_file(conf: &Conf) -> BoxedStrategy<FileSpec> {
 fn case_strategy() -> impl Strategy<Value = C15Case> {
     let conf = Conf::active();
     let limit_session = (proptest::collection::vec(limit_file(&conf), 1..10), any::<bool>(), proptest::collection::vec(0u8..4, 1..4))
-        .prop_map(|(files, concurrent, yields)| SessionSpec { files, concurrent, yields, client: 0, restart_before: false });
+        .prop_map(|(files, concurrent, yields)| SessionSpec { files, concurrent, yields, client: 0, restart_before: false, peer: false });
     let limit_history = (any::<u64>(), 600u16..3000, proptest::collection::vec(limit_session, 1..3))
         .prop_map(|(pool_seed, n_ids, sessions)| History { pool_seed, n_ids, salt_seed: 3, sessions, global_dedup: false });
     prop_oneof![3 => limit_history, 1 => history_strategy(false, 3, 6)].prop_map(|history| C15Case { history })
